@@ -235,6 +235,22 @@ func (p *Prog) typeID(t types.Type) int {
 	return id
 }
 
+// objID is the dynamic type id of the heap object a value of type t refers
+// to: backing arrays of slices get an id of their own, distinct from the id of
+// a cell that holds a slice header.
+func (p *Prog) objID(t types.Type) int {
+	if _, ok := types.Unalias(t).Underlying().(*types.Slice); ok {
+		s := "backing " + types.TypeString(types.Unalias(t), nil)
+		if id, ok := p.typeIDs[s]; ok {
+			return id
+		}
+		id := len(p.typeIDs) + 1
+		p.typeIDs[s] = id
+		return id
+	}
+	return p.typeID(t)
+}
+
 func (p *Prog) globalRef(g *ssa.Global) int {
 	if id, ok := p.globals[g]; ok {
 		return id
